@@ -766,6 +766,10 @@ def wellformed(o):
     """C02 on one observation (dict from parse_obs). Returns failing clause or None."""
     if "nocontext" in o:
         return None
+    if "xcheck" in o:
+        # the harness read the same state through two paths of the API and they disagree (status flag vs option, get_option vs
+        # context, a second get_context, select keys, composition.length vs the preedit's bytes)
+        return "read-paths-disagree:" + o["xcheck"].split(":")[0]
     inp = unhex(o.get("input"))
     caret = int(o.get("caret", 0))
     if caret > len(inp):
@@ -811,6 +815,10 @@ def cand_ends(o):
     if "nocontext" in o or m in (None, "~") or ",[" not in m:
         return None
     n = len(unhex(o.get("input")))
+    if n == 0 or (o.get("segs") or "").startswith("0:"):
+        # a menu over no composed input at all: the schema switcher's own list (its entries are not translations of input; raw
+        # input set through the API while the list is open is kept beside it)
+        return None
     for ent in m[m.index(",[") + 2:].rstrip("]").split("|"):
         if not ent:
             continue
@@ -987,7 +995,9 @@ def session_check(c, pid, monitor, histories, rows_for, exe, ws, what_prop, repo
                     if len(stats["samples"]) < 4 and o.get("menu") not in (None, "~") and j > 5:
                         stats["samples"].append({"schema": pending[h][0], "op": op, "observation": impl[i][:300]})
                     why = monitor(states.setdefault(h, {"sid": pending[h][0], "texts": [r[1] for r in rows]}), op, o)
-                    if why and h not in bad_hist:
+                    # the monitor goes on after a model / implementation difference: a violation of the property later in
+                    # the same history (the difference may be what leads to it) is what gets reported, with its history
+                    if why and (h not in bad_hist or bad_hist[h][0] == "diff"):
                         bad_hist[h] = ("viol", j, op, why)
                 if report_diffs and i < len(model) and impl[i] != model[i] and h not in bad_hist:
                     bad_hist[h] = ("diff", j, op, None)
@@ -1044,6 +1054,44 @@ def session_check(c, pid, monitor, histories, rows_for, exe, ws, what_prop, repo
 STOCK_PUNCT = "/\\|~`'\"<>[]{}$^*%@#&=+-_:;!?.,"
 
 
+F4 = 0xffc1
+
+
+def gen_switcher_ops(rng):
+    """the switcher's menu (hotkey F4 / Control+grave; default.yaml folds the options into one line: `fold_options: true`):
+    open it, move / page / highlight / select inside it (selecting the folded line unfolds the switches; selecting a switch
+    toggles it and closes the menu), leave it by Escape or the hotkey, open it AGAIN (the switcher keeps a context of its
+    own between activations), then ordinary keys"""
+    hot = lambda: rng.choice(["key %d 0" % F4, "key %d 0" % F4, "key 96 4"])
+    inside = lambda: rng.choice(["key %d 0" % XK["Down"]] * 4 + ["key %d 0" % XK["Up"], "key %d 0" % XK["Next"], "key %d 0" % XK["Prior"],
+                                 "highlight %d" % rng.randrange(6), "highlight_page %d" % rng.randrange(5), "page +", "page -",
+                                 "key %d 0" % XK["End"], "key %d 0" % XK["Home"]])
+    pick = lambda: rng.choice(["select_page %d" % rng.randrange(5), "select %d" % rng.randrange(6), "key %d 0" % ord(rng.choice("12345")),
+                               "key %d 0" % XK["space"], "key %d 0" % XK["Return"]])
+    out = [hot()]
+    for _ in range(rng.choice([1, 2, 3])):
+        out += [inside() for _ in range(rng.choice([0, 1, 2, 4]))]
+        out.append(rng.choice([pick(), pick(), "key %d 0" % XK["Escape"], hot()]))
+        out += [inside() for _ in range(rng.choice([0, 1, 3]))]
+        out.append(rng.choice(["key %d 0" % XK["Escape"], hot(), pick()]))
+        out.append(hot())
+    out += [inside() for _ in range(rng.choice([0, 1, 2]))] + [rng.choice(["key %d 0" % XK["Escape"], hot(), pick()])]
+    return out
+
+
+def switcher_directed():
+    """directed: open the menu, select its k-th line (the folded options line among them: the menu is rebuilt with one line per
+    switch), move down d lines, leave, open again, move, leave, type a word"""
+    out = []
+    word = ["key 110 0", "key 105 0", "key 32 0", "read_commit"]
+    for k in (1, 2, 3):
+        for d in (1, 3, 6):
+            for leave in ("key %d 0" % XK["Escape"], "key %d 0" % F4):
+                out.append(["key %d 0" % F4, "select_page %d" % k] + ["key %d 0" % XK["Down"]] * d + [leave, "key %d 0" % F4,
+                            "key %d 0" % XK["Down"], "key %d 0" % XK["Escape"]] + word)
+    return out
+
+
 def gen_stock_history(rng, n):
     """keys and calls for the stock-like schema (luna_pinyin's component list over tiny dictionaries): pinyin syllables,
     one punctuation key pressed k times in a row (k up to 9: the alternatives of a list-valued punctuation wrap around),
@@ -1052,6 +1100,9 @@ def gen_stock_history(rng, n):
     ops = []
     while len(ops) < n:
         r = rng.random()
+        if rng.random() < 0.05:
+            ops += gen_switcher_ops(rng)
+            continue
         if r < 0.30:
             for ch in rng.choice(syl):
                 ops.append("key %d 0" % ord(ch))
